@@ -34,6 +34,9 @@ RULE = (
     "re-registration or a check that hits a registered name with a str; or any built-in case; "
     "distinct = canon(history) / the string"
 )
+RULE += (
+    ' Round 9: kinds anyOf-later-member, parsed-anyOf-later-member, allOf-later-member put the format on a member that is not the first to accept the value (anyOf kinds compare warnings and checker consultations only: the first member accepts everything).'
+)
 ASSUMPTIONS = [
     "the process-wide registry is saved at the start of each case and restored at teardown",
     "RFC 3339 generator follows section 5.6 (date-fullyear 4DIGIT, T/t, Z/z, 1+ fraction digits, numeric offset +-00:00..23:59)",
@@ -42,7 +45,10 @@ BUDGET = {"quick": (160, 20, 1500, 25), "thorough": (1200, 40, 12000, 300)}  # m
 
 NAMES = ["uuid", "date-time", "my_format", "email", "x", "", "ipv4", "日付", "a b", "UUID", "date_time"]
 PREDS = [("always",), ("never",), ("len_mod", 2, 0), ("len_mod", 3, 1), ("contains", "a"), ("contains", "-")]
-KINDS = ["String", "Element", "parsed-untyped", "parsed-string", "String+enum", "Element+const", "parsed+enum"]
+KINDS = ["String", "Element", "parsed-untyped", "parsed-string", "String+enum", "Element+const", "parsed+enum",
+         # the same keyword reached through a composition member that is not the first to accept the value / through
+         # the item schema of an array position other than the first
+         "anyOf-later-member", "parsed-anyOf-later-member", "allOf-later-member"]
 
 
 DOCSTRINGS = [None, "Plain words.", "Match ``[A-Z]{3}-[0-9]{4}``.", "{name} must hold", "100%s sure {0} {}", "}{",
@@ -81,6 +87,14 @@ def element(kind, name=None, value=None):
         if kind == "Element+const":
             return Element(const=literal, **kw)
         return parse_element({"enum": ["zzz", literal], **kw})
+    if kind == "anyOf-later-member":
+        from statham.schema.elements import AnyOf
+        return AnyOf(Element(), Element(**kw)) if name is not None else AnyOf(Element(), Element())
+    if kind == "parsed-anyOf-later-member":
+        return parse_element({"anyOf": [{"minLength": 0}, dict(kw, maxLength=10 ** 6)]})
+    if kind == "allOf-later-member":
+        from statham.schema.elements import AllOf
+        return AllOf(Element(), Element(**kw))
     if kind == "String":
         return String(**kw)
     if kind == "Element":
@@ -183,6 +197,8 @@ class Harness:
                 fmt_ok = bool(make_pred(spec)(value))
         else:
             fmt_ok = True
+        if "anyOf" in kind:
+            fmt_ok = True  # another member accepts every value: the format can warn, it cannot reject
         expected = "reject" if (base[0] != "ok" or not fmt_ok) else "ok"
         if got != expected:
             if got == "reject" and base[0] == "ok":
